@@ -10,7 +10,7 @@
            | (7 d) | (8 who) | (9 ok) | (10 k fail)
       exp  = (j koff (dmode darg) (imode iarg) dirk garb gen)
     Observation of one life:
-      (restored slots probe opres final log exps)
+      (restored slots probe opres final log exps events)
       restored = (present oldest ((lo size woff (seed ...)) ...) hinit initialBlockCount)
       slots    = ((slot key attempt blockIndex off size) ...)   what the REAL record array resolves
       probe    = ((fm get) ...) per key, after a restart;  get = (code) | (0 payload)
@@ -204,6 +204,80 @@ Definition slots_covered (st : option sfile) (slots : sx) : bool :=
         end) (sx_list slots)
   end.
 
+(** ---- the PBL-level event history of a life, replayed on Persist/PBL.v ----
+    events (recorded by a transparent wrapper around the real PersistentBlockList, in the order in
+    which the calls returned):
+      (1 ok lo size)            PushBack (ok: the region NewBlock handed out)
+      (2)                       PopFront
+      (3 index size)            Put (the k-th such event is upload k)
+      (4 k code off seed)       the finalizer of upload k returned (offset, code); seed = hash seed of
+                                the newest epoch afterwards (what the model draws if it creates one)
+      (5 final) (6) (8)         NotifySyncStarting / NotifySyncCompleted / NotifyPersistentStateWritten
+      (7 oldest blocks)         GetPersistentState returned this
+      (9 slot epoch bfl idx seed)  a record write carrying reference (epoch, bfl), which the list
+                                resolves to block index idx under hash seed seed
+    The model must return the same persistent states, the same finalizer outcomes, and
+    BlockIndexToBlockReference of the model must give exactly the reference and seed written. *)
+Record hst := mkH { h_p : pbl; h_toks : list (put_token * Z); h_bad : bool }.
+
+Definition enc_pstate (st : pstate) : sx := L [of_N (fst st); L (map enc_bstate (snd st))].
+
+Definition hist_step (h : hst) (e : sx) : hst :=
+  if h_bad h then h else
+  let p := h_p h in
+  let bad := mkH p (h_toks h) true in
+  let ok (p' : pbl) := mkH p' (h_toks h) false in
+  match sx_Z (sx_nth e 0) with
+  | 1 =>
+      let succ := sx_bool (sx_nth e 1) in
+      let alloc := if succ then Some (sx_Z (sx_nth e 2), sx_Z (sx_nth e 3)) else None in
+      match push_back alloc p, succ with
+      | (p', PushOk), true => ok p'
+      | (_, PushOk), false => bad
+      | (_, _), true => bad
+      | (p', _), false => ok p'
+      end
+  | 2 => match pop_front p with Ok p' => ok p' | Panic => bad end
+  | 3 => match put_start (sx_nat (sx_nth e 1)) p with
+         | Ok tok => mkH p (h_toks h ++ [(tok, sx_Z (sx_nth e 2))]) false
+         | Panic => bad
+         end
+  | 4 =>
+      let code := sx_Z (sx_nth e 2) in
+      let off := sx_Z (sx_nth e 3) in
+      match nth_error (h_toks h) (sx_nat (sx_nth e 1)) with
+      | Some (tok, size) =>
+          let blk := if Z.eqb code 0 || Z.eqb code 13 || Z.eqb code 14 then Some off else None in
+          match put_finalize tok blk size (sx_N (sx_nth e 4)) p with
+          | Ok (p', FinOk o) => if Z.eqb code 0 && Z.eqb o off then ok p' else bad
+          | Ok (p', FinClosed) => if Z.eqb code 14 then ok p' else bad
+          | Ok (p', FinReleased) => if Z.eqb code 13 then ok p' else bad
+          | Ok (p', FinBlockError) => if Z.eqb code 0 then bad else ok p'
+          | Panic => bad
+          end
+      | None => bad
+      end
+  | 5 => ok (notify_sync_starting (sx_bool (sx_nth e 1)) p)
+  | 6 => ok (notify_sync_completed p)
+  | 7 => match get_persistent_state p with
+         | Ok (p', st) => if sx_eqb (enc_pstate st) (L [sx_nth e 1; sx_nth e 2]) then ok p' else bad
+         | Panic => bad
+         end
+  | 8 => match notify_state_written p with Ok p' => ok p' | Panic => bad end
+  | 9 =>
+      if sx_Z (sx_nth e 4) <? 0 then bad else
+      match index_to_ref (sx_nat (sx_nth e 4)) p with
+      | Ok ((ep, bfl), sd) =>
+          if N.eqb ep (sx_N (sx_nth e 2)) && N.eqb bfl (sx_N (sx_nth e 3)) && N.eqb sd (sx_N (sx_nth e 5))
+          then ok p else bad
+      | Panic => bad
+      end
+  | _ => bad
+  end.
+
+Definition hist_ok (p0 : pbl) (evs : sx) : bool :=
+  negb (h_bad (fold_left hist_step (sx_list evs) (mkH p0 [] false))).
+
 (** agreement of one life's observation with the model, given the media it started on;
     returns the list of disagreement codes (empty = agree) *)
 Fixpoint tie_life (fuel : nat) (c : jcfg) (base : medium jrec) (ing obs : sx) : list Z :=
@@ -217,7 +291,8 @@ Fixpoint tie_life (fuel : nat) (c : jcfg) (base : medium jrec) (ing obs : sx) : 
         (if sx_eqb (sx_nth obs 1) (model_slots c base) then [] else [11]) ++
         (if forallb (slot_has_key (sx_nth obs 1)) (served_keys (sx_nth obs 2)) then [] else [12]) ++
         (if log_seed_rule log then [] else [17]) ++
-        (if slots_covered (m_state base) (sx_nth obs 1) then [] else [18]) in
+        (if slots_covered (m_state base) (sx_nth obs 1) then [] else [18]) ++
+        (if hist_ok (fst (restart (j_geom c) (m_state base))) (sx_nth obs 7) then [] else [19]) in
       here ++
       flat_map (fun eo =>
         let e := fst eo in let o := snd eo in
